@@ -40,7 +40,13 @@ Inductive event :=
 | ReadCancel (c : src)                              (* a caller is cancelled while it WAITS in the guard (before the driver call) *)
 | Told (t : nat) (r : tres)                         (* transform_and_write_value returned / raised: what the API function, the
                                                        eval loop or the sequence step that submitted ticket t gets back *)
-| ApiTold (t : nat) (ok : bool).                    (* patch_port_value answered 204/202 (true) or an error (false) *)
+| ApiTold (t : nat) (ok : bool)                     (* patch_port_value answered 204/202 (true) or an error (false) *)
+| Disable                                           (* disable() took effect (`enabled := false`); the write queue, the entry at the
+                                                       driver and the pending futures are NOT touched by the code: values accepted
+                                                       before are still written, in order *)
+| Enable                                            (* enable() took effect *)
+| Discard (t : nat).                                (* an entry leaves the queue by any other way than the write loop's get() or
+                                                       the overflow rule: the code has no such step *)
 
 Inductive wloop := WIdle | WTaken (v : Z) (t : nat) | WDriver (v : Z) (t : nat) | WUpdating.
 
@@ -53,20 +59,22 @@ Record pstate := mk {
   direct : bool;                 (* a direct write_value of load_from_data is in flight *)
   next : nat;                    (* tickets issued so far *)
   results : list (nat * tres);   (* resolved futures *)
-  delivered : list nat           (* submitters that have been told *)
+  delivered : list nat;          (* submitters that have been told *)
+  enabled : bool                 (* _enabled: polling passes and load/reset read only enabled ports *)
 }.
 
-Definition init : pstate := mk None false 0 [] WIdle false 0 [] [].
+Definition init : pstate := mk None false 0 [] WIdle false 0 [] [] false.
 
-Definition set_reading s x := mk x (wait_pass s) (wait_load s) (write_q s) (wl s) (direct s) (next s) (results s) (delivered s).
-Definition set_wait_pass s x := mk (reading s) x (wait_load s) (write_q s) (wl s) (direct s) (next s) (results s) (delivered s).
-Definition set_wait_load s x := mk (reading s) (wait_pass s) x (write_q s) (wl s) (direct s) (next s) (results s) (delivered s).
-Definition set_write_q s x := mk (reading s) (wait_pass s) (wait_load s) x (wl s) (direct s) (next s) (results s) (delivered s).
-Definition set_wl s x := mk (reading s) (wait_pass s) (wait_load s) (write_q s) x (direct s) (next s) (results s) (delivered s).
-Definition set_direct s x := mk (reading s) (wait_pass s) (wait_load s) (write_q s) (wl s) x (next s) (results s) (delivered s).
-Definition set_next s x := mk (reading s) (wait_pass s) (wait_load s) (write_q s) (wl s) (direct s) x (results s) (delivered s).
-Definition set_results s x := mk (reading s) (wait_pass s) (wait_load s) (write_q s) (wl s) (direct s) (next s) x (delivered s).
-Definition set_delivered s x := mk (reading s) (wait_pass s) (wait_load s) (write_q s) (wl s) (direct s) (next s) (results s) x.
+Definition set_reading s x := mk x (wait_pass s) (wait_load s) (write_q s) (wl s) (direct s) (next s) (results s) (delivered s) (enabled s).
+Definition set_wait_pass s x := mk (reading s) x (wait_load s) (write_q s) (wl s) (direct s) (next s) (results s) (delivered s) (enabled s).
+Definition set_wait_load s x := mk (reading s) (wait_pass s) x (write_q s) (wl s) (direct s) (next s) (results s) (delivered s) (enabled s).
+Definition set_write_q s x := mk (reading s) (wait_pass s) (wait_load s) x (wl s) (direct s) (next s) (results s) (delivered s) (enabled s).
+Definition set_wl s x := mk (reading s) (wait_pass s) (wait_load s) (write_q s) x (direct s) (next s) (results s) (delivered s) (enabled s).
+Definition set_direct s x := mk (reading s) (wait_pass s) (wait_load s) (write_q s) (wl s) x (next s) (results s) (delivered s) (enabled s).
+Definition set_next s x := mk (reading s) (wait_pass s) (wait_load s) (write_q s) (wl s) (direct s) x (results s) (delivered s) (enabled s).
+Definition set_results s x := mk (reading s) (wait_pass s) (wait_load s) (write_q s) (wl s) (direct s) (next s) x (delivered s) (enabled s).
+Definition set_delivered s x := mk (reading s) (wait_pass s) (wait_load s) (write_q s) (wl s) (direct s) (next s) (results s) x (enabled s).
+Definition set_enabled s x := mk (reading s) (wait_pass s) (wait_load s) (write_q s) (wl s) (direct s) (next s) (results s) (delivered s) x.
 
 Definition memb (t : nat) (l : list nat) : bool := existsb (Nat.eqb t) l.
 
@@ -95,8 +103,8 @@ Definition full (cap : nat) (q : list (Z * nat)) : bool := (0 <? cap) && (cap <=
 Definition step_gen (guarded : bool) (cap : nat) (s : pstate) (e : event) : option pstate :=
   match e with
   | ReadRequest SrcPass =>
-      if wait_pass s || pass_reading (reading s) then None else Some (set_wait_pass s true)
-  | ReadRequest SrcLoad => Some (set_wait_load s (S (wait_load s)))
+      if negb (enabled s) || wait_pass s || pass_reading (reading s) then None else Some (set_wait_pass s true)
+  | ReadRequest SrcLoad => if enabled s then Some (set_wait_load s (S (wait_load s))) else None
   | ReadStart c =>
       match reading s with
       | Some _ => None                                        (* the guard: nobody starts while _reading *)
@@ -167,6 +175,9 @@ Definition step_gen (guarded : bool) (cap : nat) (s : pstate) (e : event) : opti
            | None => None
            end
       else None
+  | Disable => if enabled s then Some (set_enabled s false) else None
+  | Enable => if enabled s then None else Some (set_enabled s true)
+  | Discard _ => None
   end.
 
 Definition step := step_gen true.
